@@ -37,7 +37,7 @@ func (g *gen) genericDecl() string {
 // RawCases is the number of plain raw type cases; ExtInCases the number of
 // sibling-package-in-position cases (forced indices RawCases..RawCases+ExtInCases-1).
 const RawCases = 30
-const ExtInCases = 14
+const ExtInCases = 17
 
 // rawType creates a static type. Each call yields a type distinct from all
 // earlier ones (fresh named components).
@@ -63,6 +63,27 @@ func (g *gen) extIn(which int) (string, string, []string) {
 			return ax, "ext-alias", []string{a, g.s.Types[et].Name}
 		}
 		return "*" + ax, "ext-alias-ptr", []string{a, g.s.Types[et].Name}
+	}
+	if which >= 14 && which <= 16 {
+		// generic types declared in the sibling package, instantiated inside
+		// one another; the innermost type argument comes from a package that
+		// nothing else in the declaration mentions
+		if g.s.ExtDecl == nil {
+			g.s.ExtDecl = map[string]string{}
+		}
+		if !strings.Contains(g.s.ExtDecl[e.Dir], "type Option[") {
+			g.s.ExtDecl[e.Dir] += "type Option[T any] struct{ V T }\ntype Page[T any] struct{ Items []T }\n"
+		}
+		q := g.s.importName(e.Dir)
+		names = append(names, "Option", "Page")
+		switch which {
+		case 14:
+			return q + ".Option[" + q + ".Page[time.Duration]]", "ext-generic-nested-foreign-arg", names
+		case 15:
+			return "func(" + x + ") " + q + ".Page[*big.Int]", "ext-generic-in-func-result", names
+		default:
+			return "map[string]" + q + ".Option[[]" + q + ".Page[netip.Addr]]", "ext-generic-nested-in-map", names
+		}
 	}
 	switch which {
 	case 0:
